@@ -343,6 +343,15 @@ def wl_sketch(ctx, rng, case):
                 s.remove(k3, n)
                 case.op("remove", k3, n)
                 ctx.count("sketch_states_with_over_removal")
+        if cls_name in ("CountMinSketch", "CountMeanSketch", "CountMeanMinSketch") and rng.random() < 0.3:
+            # a state after join(): this sketch was the receiver of one or two joins (with fed partners of its own geometry)
+            for _ in range(rng.randint(1, 2)):
+                partner = cls(width=s.width, depth=s.depth, **bl.kw_hash(hf))
+                for _ in range(rng.randint(0, 4)):
+                    partner.add(rng.choice(keys), rng.randint(1, 6))
+                s.join(partner)
+            case.op("joined")
+            ctx.count("sketch_states_after_join")
         st = refimpl.parse_cms(bytes(s))
         if any(c in (refimpl.INT32_MAX, refimpl.INT32_MIN) for c in st["cells"]):
             ctx.count("saturated_states")
